@@ -102,23 +102,23 @@ def run(ctx):
             only = {"python-only": 0, "rust-only": 0}
             for line in open(os.path.join(scratch, "rs.jsonl")):
                 text, oi, kind, val = json.loads(line)
-                p = py_res.get((text, oi))
-                if p is None or text == "now":
+                if text == "now":
                     continue
                 n += 1
-                if p[0] == "ok" and kind == "ok":
-                    both += 1
-                    if p[1] != val:
-                        fl = {"text": text, "options_index": oi, "kind": "backends-differ", "python": p[1], "rust": val}
-                        key = (fl["python"][0], _dur_fraction_unit(text), "P" in text)
-                        classes[key] = classes.get(key, 0) + 1
-                        if classes[key] <= 6 and len(fails) < 80:
-                            fails.append(fl)
-                elif p[0] == "ok":
-                    only["python-only"] += 1
-                elif kind == "ok":
+                p = py_res.get((text, oi))
+                if p is None:
                     only["rust-only"] += 1
-            ctx.record("backends_agree_when_both_accept", n, both, f"for every fuzzed string (options {{}}, {{exact}}) that BOTH backends accept ({both} of {n}; accepted by one only: {only}) "
+                    continue
+                both += 1
+                if p[1] != val:
+                    fl = {"text": text, "options_index": oi, "kind": "backends-differ", "python": p[1], "rust": val}
+                    key = (fl["python"][0], _dur_fraction_unit(text), "P" in text)
+                    classes[key] = classes.get(key, 0) + 1
+                    if classes[key] <= 6 and len(fails) < 80:
+                        fails.append(fl)
+            only["python-only"] = len([k for k in py_res if k[0] != "now"]) - both
+            n += only["python-only"]
+            ctx.record("backends_agree_when_both_accept", n, both, f"for every fuzzed string (options {{}}, {{exact}}) that BOTH backends accept ({both} of the {n} accepted by at least one; accepted by one only: {only}) "
                        "the two results have the same type, fields, offset / years, months and native value", failures=fails, kind="rust-differential",
                        secs=round(time.time() - t0, 1), samples=[{"class": [list(map(str, k)), v]} for k, v in list(classes.items())[:5]])
     finally:
